@@ -1,11 +1,12 @@
 (* Proofs/FixedStructTablesOk.v — finite obligations on the regenerated layout table
    (Gen/FixedStructTables.v), by vm_compute over the table and lifted with forallb_forall. *)
-From Coq Require Import List NArith ZArith Bool Lia String.
+From Coq Require Import List NArith ZArith Bool Lia String Permutation.
 Import ListNotations.
 From S4.Base Require Import Bytes.
 From S4.Spec Require Import RecordsSpec.
-From S4.Model Require Import Records.
+From S4.Model Require Import Records RecordRender LayoutDetect.
 From S4.Gen Require Import FixedStructTables.
+From S4.Proofs Require Import RecordRenderProofs LayoutDetectProofs.
 Open Scope N_scope.
 
 Definition layout_wfb (l : layout) : bool :=
@@ -117,3 +118,410 @@ Example decode_tv_example :
             [9; 9; 9; 9;  0x00; 0xF1; 0x53; 0x65;  0x40; 0xE2; 0x01; 0x00;  7; 7; 7; 7]
   = (1700000000, 123456)%Z.
 Proof. vm_compute. reflexivity. Qed.
+
+(* ================================================================== rendering and layout detection:
+   obligations on the regenerated as_bytes / score_fixedstruct tables, the detection function of
+   the code as it is, and the witnesses of the recorded findings *)
+Local Open Scope string_scope.
+Local Open Scope N_scope.
+Local Open Scope list_scope.
+
+(* ------------------------------------------------------------------ the code's iteration order is one order of the set *)
+Lemma flat_map_app_perm {A B} (f g : A -> list B) l :
+  Permutation (flat_map (fun x => f x ++ g x) l) (flat_map f l ++ flat_map g l).
+Proof.
+  induction l as [|x r IH]; simpl; [constructor|].
+  (* (f x ++ g x) ++ FG r  ~  (f x ++ F r) ++ (g x ++ G r) *)
+  rewrite <- !app_assoc. apply Permutation_app_head.
+  eapply Permutation_trans; [apply Permutation_app_head; exact IH|].
+  rewrite !app_assoc. apply Permutation_app_tail. apply Permutation_app_comm.
+Qed.
+
+Lemma flat_map_single_once (order : list bytes) (c : cand) :
+  NoDup order -> In (cname c) order ->
+  flat_map (fun n => if beqb n (cname c) then [c] else []) order = [c].
+Proof.
+  induction order as [|n r IH]; intros Hnd Hin; [contradiction|].
+  inversion Hnd as [|? ? Hn Hr]; subst. simpl. destruct (beqb n (cname c)) eqn:E.
+  - apply beqb_eq in E. subst n. simpl. f_equal.
+    clear IH Hin Hnd. induction r as [|m r IH]; [reflexivity|]. simpl.
+    destruct (beqb m (cname c)) eqn:E2.
+    + apply beqb_eq in E2. subst. exfalso. apply Hn. left. reflexivity.
+    + apply IH. * intro G. apply Hn. right. exact G. * inversion Hr; assumption.
+  - destruct Hin as [->|Hin]; [rewrite beqb_refl in E; discriminate|]. simpl. apply IH; assumption.
+Qed.
+
+Theorem order_cands_perm order cands :
+  NoDup order -> (forall c, In c cands -> In (cname c) order) ->
+  Permutation cands (order_cands order cands).
+Proof.
+  intros Hnd. unfold order_cands. induction cands as [|c r IH]; intro Hin.
+  - assert (He : flat_map (fun n : bytes => filter (fun c : cand => beqb n (fst (fst (fst c)))) []) order = []).
+    { clear. induction order as [|n r IH]; simpl; [reflexivity|exact IH]. }
+    rewrite He. apply perm_nil.
+  - assert (Heq : forall n, filter (fun c0 : cand => beqb n (fst (fst (fst c0)))) (c :: r)
+                          = (if beqb n (cname c) then [c] else []) ++ filter (fun c0 : cand => beqb n (fst (fst (fst c0)))) r).
+    { intro n. simpl. unfold cname. destruct (beqb n (fst (fst (fst c)))); reflexivity. }
+    rewrite (flat_map_ext _ _ Heq).
+    apply Permutation_sym.
+    eapply Permutation_trans;
+      [apply (flat_map_app_perm (fun n => if beqb n (cname c) then [c] else [])
+                                (fun n => filter (fun c0 : cand => beqb n (fst (fst (fst c0)))) r) order)|].
+    rewrite flat_map_single_once by (try assumption; apply Hin; left; reflexivity).
+    simpl. constructor. apply Permutation_sym. apply IH. intros c0 H0. apply Hin. right. exact H0.
+Qed.
+
+(* ------------------------------------------------------------------ filesz_to_types guards *)
+(* the constant each `filesz % module::NAME_SZ_FO == 0` guard tests IS the entry size of the type
+   inserted under it (the defect repaired by commit dd987c74 was a wrong constant) *)
+Theorem filesz_guard_consts_are_sizes :
+  forallb (fun gt => match assoc (fst gt) filesz_guard_consts, find_size (snd gt) fixedstruct_layouts with
+                     | Some a, Some b => a =? b
+                     | _, _ => false
+                     end) filesz_guards = true.
+Proof. vm_compute. reflexivity. Qed.
+
+(* ------------------------------------------------------------------ the render table *)
+Definition render_row_ok (p : bytes * list ritem) : bool :=
+  static_ok (snd p) as_bytes_tail && forallb flag_wf (snd p) && all_auto_clean (snd p) as_bytes_tail
+  && Nat.leb (items_max 64 (snd p) + length as_bytes_tail + count_backs (snd p)) print_buffer_cap
+  && match find_size (fst p) fixedstruct_layouts with
+     | Some sz => forallb (fun it => fst (item_span it) + snd (item_span it) <=? sz) (snd p)
+     | None => false
+     end.
+
+(* every row: can be read back (static_ok), flag lists open with a literal, numbers / type names /
+   addresses never contain their stop byte, the longest possible line fits the print buffer
+   (f32 text at most 64 bytes), every printed field lies inside the entry *)
+Theorem render_rows_ok : forallb render_row_ok fixedstruct_render = true.
+Proof. vm_compute. reflexivity. Qed.
+
+Theorem render_covers_layouts :
+  forallb (fun l => match assoc (l_name l) fixedstruct_render with Some _ => true | None => false end)
+          fixedstruct_layouts = true
+  /\ length fixedstruct_render = length fixedstruct_layouts.
+Proof. split; vm_compute; reflexivity. Qed.
+
+Lemma render_row n items : In (n, items) fixedstruct_render -> render_row_ok (n, items) = true.
+Proof. intro H. apply (proj1 (forallb_forall render_row_ok fixedstruct_render) render_rows_ok _ H). Qed.
+
+Lemma render_row_facts n items :
+  In (n, items) fixedstruct_render ->
+  static_ok items as_bytes_tail = true /\ forallb flag_wf items = true /\ all_auto_clean items as_bytes_tail = true
+  /\ (items_max 64 items + length as_bytes_tail + count_backs items <= print_buffer_cap)%nat.
+Proof.
+  intro H. apply render_row in H. unfold render_row_ok in H. cbn [fst snd] in H.
+  apply andb_true_iff in H as [H _]. apply andb_true_iff in H as [H Hfit].
+  apply andb_true_iff in H as [H Hauto]. apply andb_true_iff in H as [Hst Hwf].
+  apply Nat.leb_le in Hfit. auto.
+Qed.
+
+(* the text the printer writes for a record = the concatenation of the items of ITS layout over
+   ITS bytes, followed by "\n\0": no truncation ever (the buffer is large enough for every entry) *)
+Theorem table_as_bytes_is_render f32txt n items e :
+  In (n, items) fixedstruct_render -> (forall b, (length (f32txt b) <= 64)%nat) -> bytes_ok e ->
+  as_bytes f32txt print_buffer_cap items as_bytes_tail e = ROk (render f32txt items as_bytes_tail e).
+Proof.
+  intros H Hf He. destruct (render_row_facts n items H) as [_ [Hwf [_ Hfit]]].
+  apply as_bytes_is_render; [assumption|].
+  pose proof (render_length f32txt 64 Hf items as_bytes_tail e He) as Hl. lia.
+Qed.
+
+Theorem table_parse_render f32txt n items e :
+  In (n, items) fixedstruct_render ->
+  items_clean f32txt items as_bytes_tail e = true ->
+  parse_items items as_bytes_tail (render f32txt items as_bytes_tail e) = Some (var_texts f32txt items e).
+Proof. intros H Hc. destruct (render_row_facts n items H) as [Hst _]. apply parse_render; assumption. Qed.
+
+Theorem table_render_injective f32txt n items e1 e2 :
+  In (n, items) fixedstruct_render ->
+  items_clean f32txt items as_bytes_tail e1 = true -> items_clean f32txt items as_bytes_tail e2 = true ->
+  render f32txt items as_bytes_tail e1 = render f32txt items as_bytes_tail e2 ->
+  forall it, In it items -> is_var it = true -> item_text f32txt it e1 = item_text f32txt it e2.
+Proof.
+  intros H H1 H2 He it Hin Hv. destruct (render_row_facts n items H) as [Hst _].
+  eapply var_texts_in; [eapply render_injective; eassumption|exact Hin|exact Hv].
+Qed.
+
+(* the cleanliness condition is a condition on the strings (and the f32 text) only *)
+Theorem table_clean_is_strings_clean f32txt n items e :
+  In (n, items) fixedstruct_render ->
+  items_clean f32txt items as_bytes_tail e = strings_clean f32txt items as_bytes_tail e.
+Proof. intro H. destruct (render_row_facts n items H) as [_ [_ [Ha _]]]. apply items_clean_strings. assumption. Qed.
+
+(* ------------------------------------------------------------------ the score table *)
+Definition score_row_ok (p : bytes * list sitem) : bool :=
+  Nat.eqb (length (filter is_time (snd p))) 1
+  && match find_size (fst p) fixedstruct_layouts with Some _ => true | None => false end.
+
+Theorem score_rows_ok : forallb score_row_ok fixedstruct_score = true.
+Proof. vm_compute. reflexivity. Qed.
+
+Theorem score_covers_layouts :
+  forallb (fun l => match assoc (l_name l) fixedstruct_score with Some _ => true | None => false end)
+          fixedstruct_layouts = true
+  /\ length fixedstruct_score = length fixedstruct_layouts.
+Proof. split; vm_compute; reflexivity. Qed.
+
+Theorem candidate_order_is_the_layouts :
+  nodupb candidate_order = true /\ forallb (fun l => memb (l_name l) candidate_order) fixedstruct_layouts = true
+  /\ length candidate_order = length fixedstruct_layouts.
+Proof. repeat split; vm_compute; reflexivity. Qed.
+
+(* ------------------------------------------------------------------ detection as the code runs it *)
+(* the candidate SET of filesz_to_types for a file kind and size *)
+Definition candidate_set (kind : N) (file : bytes) : list cand :=
+  filesz_candidates fixedstruct_layouts filesz_bonus filesz_try_all fixedstruct_score score_bonus
+                    kind (N.of_nat (length file)).
+(* ... in the order score_file walks it (ascending discriminant, commit a9566a30) *)
+Definition candidate_seq (kind : N) (file : bytes) : list cand := order_cands candidate_order (candidate_set kind file).
+
+Definition detect (mem : bytes -> nat -> bytes) (kind : N) (file : bytes) : option (option bytes * Z) :=
+  score_file mem count_found_entries_max (candidate_seq kind file) file.
+
+Lemma nodupb_NoDup l : nodupb l = true -> NoDup l.
+Proof.
+  induction l as [|x r IH]; intro H; [constructor|]. simpl in H. apply andb_true_iff in H as [H1 H2].
+  constructor; [|apply IH; exact H2]. intro G. apply negb_true_iff in H1.
+  assert (memb x r = true); [|congruence]. clear -G. induction r as [|y r IH]; [contradiction|].
+  simpl. destruct G as [->|G]; [rewrite beqb_refl; reflexivity|rewrite IH by exact G; apply orb_true_r].
+Qed.
+
+Lemma memb_In x l : memb x l = true -> In x l.
+Proof.
+  induction l as [|y r IH]; simpl; [discriminate|]. intro H. apply orb_true_iff in H as [H|H].
+  - apply beqb_eq in H. left. congruence.
+  - right. apply IH. exact H.
+Qed.
+
+Lemma try_all_in_order : forallb (fun n => memb n candidate_order) filesz_try_all = true.
+Proof. vm_compute. reflexivity. Qed.
+
+(* the sequence the code walks is a permutation of the candidate set *)
+Theorem candidate_seq_perm kind file : Permutation (candidate_set kind file) (candidate_seq kind file).
+Proof.
+  apply order_cands_perm.
+  - apply nodupb_NoDup. apply candidate_order_is_the_layouts.
+  - intros [[[n sz] it] b] H. unfold candidate_set in H. apply filesz_candidates_sound in H.
+    destruct H as [_ [_ [_ [Hn _]]]]. unfold cname. cbn [fst].
+    apply memb_In. apply (proj1 (forallb_forall _ filesz_try_all) try_all_in_order n Hn).
+Qed.
+
+(* POSITIVE detection theorem for the code as it is: if one candidate's high score is positive and
+   strictly above every other candidate's, detect returns it *)
+Theorem detect_unique_maximum mem kind file l n s :
+  cand_scores mem count_found_entries_max (candidate_set kind file) file = Some l ->
+  NoDup (map fst l) -> In (n, s) l -> (0 < s)%Z -> (forall m t, In (m, t) l -> m <> n -> (t < s)%Z) ->
+  detect mem kind file = Some (Some n, s).
+Proof.
+  intros Hl Hnd Hin Hs Hlt. unfold detect.
+  eapply score_file_order_independent; try eassumption. apply candidate_seq_perm.
+Qed.
+
+(* ------------------------------------------------------------------ witnesses *)
+Definition pad (n : nat) (l : bytes) : bytes := firstn n (l ++ repeat 0 n).
+Fixpoint le_bytes (k : nat) (v : N) : bytes :=
+  match k with O => [] | S k' => (v mod 256) :: le_bytes k' (v / 256) end.
+
+(* one NetBSD amd64 utmpx record (520 bytes): user u0, id i0, line pts/0, host h0.example,
+   session 1, USER_PROCESS, pid 1000, time 1700000000.000005 *)
+Definition nb64_utmpx_rec : bytes :=
+  pad 32 (s2b "u0") ++ pad 4 (s2b "i0") ++ pad 32 (s2b "pts/0") ++ pad 256 (s2b "h0.example")
+  ++ le_bytes 2 1 ++ le_bytes 2 7 ++ le_bytes 4 1000 ++ le_bytes 4 0 ++ repeat 0 128
+  ++ le_bytes 8 1700000000 ++ le_bytes 4 5 ++ le_bytes 4 0 ++ repeat 0 40.
+(* 129 of them: 67080 bytes = 129 x 520 = 130 x 516 *)
+Definition tie_file : bytes := concat (repeat nb64_utmpx_rec 129).
+
+Definition items_of (n : string) : list sitem :=
+  match assoc (s2b n) fixedstruct_score with Some i => i | None => [] end.
+
+(* KNOWN FINDING layout_score_tie: a file of plausible NetBSD-amd64 utmpx records whose size is
+   also a multiple of the NetBSD-i386 utmpx entry size: both layouts reach the same high score;
+   the code's order (ascending discriminant) picks the i386 layout; the reverse order picks the
+   right one: the choice is decided by the iteration order, not by the file *)
+Theorem layout_score_tie_refuted :
+  plausible (items_of "Fs_Netbsd_x8664_Utmpx") nb64_utmpx_rec = true /\
+  cand_scores no_mem count_found_entries_max (candidate_seq 5 tie_file) tie_file
+  = Some [(s2b "Fs_Netbsd_x8632_Utmpx", 122%Z); (s2b "Fs_Netbsd_x8664_Utmp", 0%Z); (s2b "Fs_Netbsd_x8664_Utmpx", 122%Z)] /\
+  detect no_mem 5 tie_file = Some (Some (s2b "Fs_Netbsd_x8632_Utmpx"), 122%Z) /\
+  score_file no_mem count_found_entries_max (rev (candidate_seq 5 tie_file)) tie_file
+  = Some (Some (s2b "Fs_Netbsd_x8664_Utmpx"), 122%Z).
+Proof. repeat split; vm_compute; reflexivity. Qed.
+
+(* one NetBSD amd64 lastlog record (32 bytes): time 1700485188 (bytes 44 58 5b 65 = "DX[e"),
+   line pts/1, host h1.example; 25 of them = 800 bytes = 20 x 40 *)
+Definition nb64_lastlog_rec : bytes := le_bytes 8 1700485188 ++ pad 8 (s2b "pts/1") ++ pad 16 (s2b "h1.example").
+Definition ll_file : bytes := concat (repeat nb64_lastlog_rec 25).
+
+(* KNOWN FINDING netbsd_lastlog_size_multiple_of_40_with_printable_time_bytes: plausible lastlog
+   records, yet the utmp(40) reading outscores the lastlog(32) reading, name bonus included — and
+   therefore under EVERY iteration order *)
+Theorem lastlog_read_as_utmp_refuted :
+  plausible (items_of "Fs_Netbsd_x8664_Lastlog") nb64_lastlog_rec = true /\
+  forall cands', Permutation (candidate_set 2 ll_file) cands' ->
+    score_file no_mem count_found_entries_max cands' ll_file = Some (Some (s2b "Fs_Netbsd_x8664_Utmp"), 71%Z).
+Proof.
+  split; [vm_compute; reflexivity|].
+  assert (Hl : cand_scores no_mem count_found_entries_max (candidate_set 2 ll_file) ll_file
+               = Some [(s2b "Fs_Linux_Arm64Aarch64_Utmpx", 0%Z); (s2b "Fs_Netbsd_x8664_Lastlog", 67%Z); (s2b "Fs_Netbsd_x8664_Utmp", 71%Z)])
+    by (vm_compute; reflexivity).
+  apply (score_file_order_independent _ _ _ _ _ _ _ Hl).
+  - apply nodupb_NoDup. vm_compute. reflexivity.
+  - right. right. left. reflexivity.
+  - lia.
+  - intros m t [H|[H|[H|[]]]] Hne; inversion H; subst; try lia. exfalso. apply Hne. reflexivity.
+Qed.
+
+(* the hypotheses of detect_unique_maximum are satisfiable: three of the utmpx records above
+   (1560 bytes: candidates NetBSD amd64 utmpx 520 and NetBSD amd64 utmp 40) *)
+Definition ok_file : bytes := concat (repeat nb64_utmpx_rec 3).
+Example detect_unique_maximum_example :
+  detect no_mem 5 ok_file = Some (Some (s2b "Fs_Netbsd_x8664_Utmpx"), 122%Z).
+Proof.
+  assert (Hl : cand_scores no_mem count_found_entries_max (candidate_set 5 ok_file) ok_file
+               = Some [(s2b "Fs_Netbsd_x8664_Utmp", 0%Z); (s2b "Fs_Netbsd_x8664_Utmpx", 122%Z)])
+    by (vm_compute; reflexivity).
+  apply (detect_unique_maximum _ _ _ _ _ _ Hl).
+  - apply nodupb_NoDup. vm_compute. reflexivity.
+  - right. left. reflexivity.
+  - lia.
+  - intros m t [H|[H|[]]] Hne; inversion H; subst; try lia. exfalso. apply Hne. reflexivity.
+Qed.
+
+(* a string field without a NUL up to the end of the struct: the score is not a function of the
+   entry (KNOWN FINDING score_reads_past_struct_end); witness: a Linux x86 lastlog entry whose
+   256-byte ll_host is full *)
+Definition lx86_lastlog_full : bytes := le_bytes 4 1700000000 ++ pad 32 (s2b "pts/1") ++ repeat 104 256.
+Theorem score_reads_past_struct_end_refuted :
+  items_closed (items_of "Fs_Linux_x86_Lastlog") lx86_lastlog_full = false /\
+  score_entry [0] (items_of "Fs_Linux_x86_Lastlog") 15 lx86_lastlog_full = Some 549%Z /\
+  score_entry [65; 0] (items_of "Fs_Linux_x86_Lastlog") 15 lx86_lastlog_full = Some 551%Z.
+Proof. repeat split; vm_compute; reflexivity. Qed.
+
+(* render examples: full-width ut_user (32 bytes, no NUL) followed directly by ut_host bytes: the
+   printed ut_user is exactly the 32 bytes *)
+Definition lx86_items : list ritem :=
+  match assoc (s2b "Fs_Linux_x86_Utmpx") fixedstruct_render with Some i => i | None => [] end.
+Definition lx86_utmpx_full_user : bytes :=
+  le_bytes 2 7 ++ le_bytes 2 0 ++ le_bytes 4 1000 ++ pad 32 (s2b "pts/3") ++ pad 4 (s2b "ts/3")
+  ++ s2b "firstname.lastname@corporate.org" ++ pad 256 (s2b "gateway.corp.example")
+  ++ le_bytes 2 0 ++ le_bytes 2 0 ++ le_bytes 4 3 ++ le_bytes 4 1700000000 ++ le_bytes 4 5 ++ repeat 0 36.
+Example full_width_user_example :
+  render f32_int_text lx86_items as_bytes_tail lx86_utmpx_full_user
+  = s2b "ut_type USER_PROCESS ut_pid 1000 ut_line 'pts/3' ut_id 'ts/3' ut_user 'firstname.lastname@corporate.org' ut_host 'gateway.corp.example' e_termination 0 e_exit 0 ut_session '3' ut_xtime 1700000000.5 ut_addr 0.0.0.0"
+    ++ [10; 0]
+  /\ items_clean f32_int_text lx86_items as_bytes_tail lx86_utmpx_full_user = true
+  /\ length lx86_utmpx_full_user = 384%nat.
+Proof. repeat split; vm_compute; reflexivity. Qed.
+
+(* ------------------------------------------------------------------ one record, one line *)
+Theorem render_rows_single_line : forallb (fun p => forallb line_static (snd p)) fixedstruct_render = true.
+Proof. vm_compute. reflexivity. Qed.
+
+Theorem table_record_is_one_line f32txt n items e :
+  In (n, items) fixedstruct_render ->
+  (forall it, In it items -> needs_value it = true -> memN 10 (item_text f32txt it e) = false) ->
+  memN 10 (flat_map (fun it => item_text f32txt it e) items) = false.
+Proof.
+  intros H Hv. apply record_is_one_line; [|exact Hv].
+  apply (proj1 (forallb_forall _ fixedstruct_render) render_rows_single_line (n, items) H).
+Qed.
+
+(* KNOWN FINDING netbsd_ss_field_with_newline: the sockaddr bytes of a NetBSD-i386 utmpx record are
+   written raw up to their first NUL; sockaddr_in {len 16, AF_INET, port 50000, 10.0.0.5} puts a
+   newline byte inside the record's text: the record is printed as two lines *)
+Definition nb32_items : list ritem :=
+  match assoc (s2b "Fs_Netbsd_x8632_Utmpx") fixedstruct_render with Some i => i | None => [] end.
+Definition nb32_utmpx_ss : bytes :=
+  pad 32 (s2b "u0") ++ pad 4 (s2b "i0") ++ pad 32 (s2b "pts/0") ++ pad 256 (s2b "h0.example")
+  ++ le_bytes 2 1 ++ le_bytes 2 7 ++ le_bytes 4 1000 ++ le_bytes 4 0 ++ pad 128 [16; 2; 195; 80; 10; 0; 0; 5]
+  ++ le_bytes 8 1700000000 ++ le_bytes 4 0 ++ repeat 0 40.
+Theorem ss_newline_refuted :
+  length nb32_utmpx_ss = 516%nat /\
+  memN 10 (flat_map (fun it => item_text f32_int_text it nb32_utmpx_ss) nb32_items) = true /\
+  item_text f32_int_text (RCstr 336 128 false) nb32_utmpx_ss = [16; 2; 195; 80; 10].
+Proof. repeat split; vm_compute; reflexivity. Qed.
+
+(* REGRESSION (fixed by commit b0611f28): set_buffer_at_or_err_i8 as it was wrote a byte >= 0x80 of a
+   c_char string as NUL: the UTF-8 name "j\195\188rgen" (6a c3 bc 72 67 65 6e) was shown as
+   6a 00 00 72 67 65 6e.  The current code prints the field's bytes (cstr_text_is_field_bytes). *)
+Theorem high_byte_printed_as_nul_refuted :
+  exists off w e, cstr_text_old off w true e <> take_cstr (slice off w e)
+                  /\ cstr_text_old off w true e = [106; 0; 0; 114; 103; 101; 110]
+                  /\ take_cstr (slice off w e) = [106; 195; 188; 114; 103; 101; 110]
+                  /\ cstr_text off w true e = [106; 195; 188; 114; 103; 101; 110].
+Proof.
+  exists 0, 32, (pad 32 [106; 195; 188; 114; 103; 101; 110]).
+  split; [vm_compute; discriminate|]. repeat split; vm_compute; reflexivity.
+Qed.
+
+Theorem cstr_text_is_field_bytes off w s e : cstr_text off w s e = take_cstr (slice off w e).
+Proof. reflexivity. Qed.
+
+(* POSITIVE, the unambiguous sizes: when no other layout's entry size divides the file size (the
+   candidate set is the file's own layout alone), every read stays inside the struct and one of
+   the first COUNT_FOUND_ENTRIES_MAX convertible entries is plausible, that layout is detected,
+   with a high score of at least 20 *)
+Theorem detect_alone_plausible mem kind file n sz items b e :
+  candidate_set kind file = [(n, sz, items, b)] ->
+  Forall (fun e => items_closed items e = true) (chunks (length file) (N.to_nat sz) file) ->
+  In e (take_conv count_found_entries_max (chunks (length file) (N.to_nat sz) file)) ->
+  plausible items e = true -> existsb is_time items = true ->
+  exists h, detect mem kind file = Some (Some n, h) /\ (20 <= h)%Z.
+Proof.
+  intros Hc Hcl Hin Hp Ht.
+  destruct (type_high_plausible (mem n) count_found_entries_max sz items b file e Hcl Hin Hp Ht) as [h [Hh [L1 _]]].
+  exists h. split; [|exact L1]. unfold detect.
+  pose proof (candidate_seq_perm kind file) as P. rewrite Hc in P.
+  apply Permutation_length_1_inv in P. rewrite P.
+  pose proof (score_file_single mem count_found_entries_max (n, sz, items, b) file h Hh) as Hs.
+  unfold cname in Hs. cbn [fst] in Hs.
+  assert (E : (0 <? h)%Z = true) by (apply Z.ltb_lt; lia). rewrite E in Hs. exact Hs.
+Qed.
+
+(* its hypotheses are satisfiable: one Linux x86 lastlog record (292 bytes; no other entry size
+   divides 292) *)
+Definition lx86_lastlog_rec : bytes := le_bytes 4 1700000000 ++ pad 32 (s2b "pts/1") ++ pad 256 (s2b "h1.example").
+Example detect_alone_plausible_example :
+  candidate_set 2 lx86_lastlog_rec = [(s2b "Fs_Linux_x86_Lastlog", 292, items_of "Fs_Linux_x86_Lastlog", 15%Z)] /\
+  forallb (items_closed (items_of "Fs_Linux_x86_Lastlog")) (chunks (length lx86_lastlog_rec) 292 lx86_lastlog_rec) = true /\
+  take_conv count_found_entries_max (chunks (length lx86_lastlog_rec) 292 lx86_lastlog_rec) = [lx86_lastlog_rec] /\
+  plausible (items_of "Fs_Linux_x86_Lastlog") lx86_lastlog_rec = true /\
+  existsb is_time (items_of "Fs_Linux_x86_Lastlog") = true /\
+  detect no_mem 2 lx86_lastlog_rec = Some (Some (s2b "Fs_Linux_x86_Lastlog"), 77%Z).
+Proof. repeat split; vm_compute; reflexivity. Qed.
+
+(* the hypotheses of table_as_bytes_is_render are satisfiable: the f32 formatter of the
+   correspondence run is short, the example entry consists of bytes, its layout is in the table *)
+Lemma f32_int_text_len b : (length (f32_int_text b) <= 64)%nat.
+Proof.
+  unfold f32_int_text.
+  destruct (le_unsigned b =? 0); [simpl; lia|].
+  destruct ((le_unsigned b / 2147483648 =? 0) && (127 <=? le_unsigned b / 8388608 mod 256) && (le_unsigned b / 8388608 mod 256 <=? 150));
+    [|simpl; lia].
+  set (m := 8388608 + le_unsigned b mod 8388608). set (sh := 150 - le_unsigned b / 8388608 mod 256).
+  destruct (m mod 2 ^ sh =? 0); [|simpl; lia].
+  assert (Hm : m < 2 ^ 24).
+  { unfold m. pose proof (N.mod_upper_bound (le_unsigned b) 8388608 ltac:(lia)) as H.
+    remember (le_unsigned b mod 8388608) as r. clear Heqr. change (2 ^ 24) with 16777216. lia. }
+  assert (Hd : m / 2 ^ sh < 2 ^ 24).
+  { apply N.le_lt_trans with m; [|exact Hm]. apply N.div_le_upper_bound.
+    - apply N.pow_nonzero. lia.
+    - assert (1 <= 2 ^ sh) by (apply N.lt_succ_r, N.lt_0_succ || (pose proof (N.pow_nonzero 2 sh ltac:(lia)); lia)).
+      remember (2 ^ sh) as p. clear Heqp. nia. }
+  pose proof (dec_len _ 24 Hd). change (N.to_nat 24) with 24%nat in H. lia.
+Qed.
+
+Example as_bytes_example :
+  In (s2b "Fs_Linux_x86_Utmpx", lx86_items) fixedstruct_render /\
+  bytes_ok lx86_utmpx_full_user /\
+  as_bytes f32_int_text print_buffer_cap lx86_items as_bytes_tail lx86_utmpx_full_user
+  = ROk (render f32_int_text lx86_items as_bytes_tail lx86_utmpx_full_user).
+Proof.
+  split; [|split].
+  - unfold lx86_items. vm_compute. do 6 right. left. reflexivity.
+  - unfold bytes_ok. apply Forall_forall. intros x Hx.
+    assert (H : forallb (fun b => b <? 256) lx86_utmpx_full_user = true) by (vm_compute; reflexivity).
+    apply N.ltb_lt. apply (proj1 (forallb_forall _ _) H x Hx).
+  - vm_compute. reflexivity.
+Qed.
